@@ -455,6 +455,7 @@ func FlowsFrom(v, src ssa.Value, passThrough func(key string) bool) bool {
 type Path struct {
 	Lits    []Lit
 	Effects []ssa.Instruction
+	EffAt   []int           // number of literals crossed before each effect
 	End     ssa.Instruction // Return, Panic, or nil when the path left the region / hit a back edge
 	EndKind string          // "return", "panic", "leave", "back"
 	Blocks  []*ssa.BasicBlock
@@ -513,6 +514,7 @@ func EnumPaths(fn *ssa.Function, o EnumOpts) ([]Path, error) {
 	onPath := map[*ssa.BasicBlock]bool{}
 	var lits []Lit
 	var effs []ssa.Instruction
+	var effAt []int
 	var blocks []*ssa.BasicBlock
 	var err error
 	emit := func(end ssa.Instruction, kind string) {
@@ -523,6 +525,7 @@ func EnumPaths(fn *ssa.Function, o EnumOpts) ([]Path, error) {
 		out = append(out, Path{
 			Lits:    append([]Lit(nil), lits...),
 			Effects: append([]ssa.Instruction(nil), effs...),
+			EffAt:   append([]int(nil), effAt...),
 			End:     end, EndKind: kind,
 			Blocks: append([]*ssa.BasicBlock(nil), blocks...),
 		})
@@ -543,10 +546,11 @@ func EnumPaths(fn *ssa.Function, o EnumOpts) ([]Path, error) {
 		onPath[b] = true
 		blocks = append(blocks, b)
 		ne := len(effs)
-		defer func() { onPath[b] = false; effs = effs[:ne]; blocks = blocks[:len(blocks)-1] }()
+		defer func() { onPath[b] = false; effs = effs[:ne]; effAt = effAt[:ne]; blocks = blocks[:len(blocks)-1] }()
 		for _, in := range b.Instrs {
 			if o.Effect != nil && o.Effect(in) {
 				effs = append(effs, in)
+				effAt = append(effAt, len(lits))
 			}
 			switch in.(type) {
 			case *ssa.Return:
